@@ -90,6 +90,20 @@ func checkRef(s string) string {
 	if got, want := res.Ref(s).IsValid(), refmux.ValidRID(s); got != want {
 		return fmt.Sprintf("Ref(%q).IsValid()=%v want %v", s, got, want)
 	}
+	if got, want := res.SoftRef(s).IsValid(), refmux.ValidRID(s); got != want {
+		return fmt.Sprintf("SoftRef(%q).IsValid()=%v want %v", s, got, want)
+	}
+	// a reference inside a data value stays a plain object (not a reference)
+	dv, err := json.Marshal(res.NewDataValue(map[string]string{"rid": s}))
+	if err != nil {
+		return fmt.Sprintf("NewDataValue with rid %q: %v", s, err)
+	}
+	var dm struct {
+		Data map[string]string `json:"data"`
+	}
+	if err := json.Unmarshal(dv, &dm); err != nil || dm.Data["rid"] != s {
+		return fmt.Sprintf("NewDataValue({rid:%q}) marshals to %s", s, dv)
+	}
 	return ""
 }
 
